@@ -85,3 +85,13 @@ theorem nth_end (k : Nat) (ps : PrimeSieve) (h : ps.bc = 65536) :
     exact ih
 
 end Ymq.Primes
+
+namespace Ymq.Primes
+
+theorem primesBelow_eq_primesFrom_zero (n : Nat) : primesBelow n = primesFrom 0 n := by
+  have h := primesBelow_append 0 n
+  rw [Nat.zero_add] at h
+  rw [h]
+  simp [primesBelow]
+
+end Ymq.Primes
